@@ -85,8 +85,8 @@ def strip_entry(t):
 
 def run(tier, seed, replay=None):
     rep = util.Report(PROP, tier, seed)
-    N = 160 if tier == "quick" else 6000
-    NI = 60 if tier == "quick" else 1500
+    N = 500 if tier == "quick" else 8000
+    NI = 150 if tier == "quick" else 2000
     rep.rule = ("(1) histories of 2-30 calls (add_ref_types per reference component, add_type with/without name hints, "
                 "$ref look-ups, exact repeats) over generated definitions; after every call every type id so far is "
                 "re-read through get_type and the output re-rendered. (2) independent additions: one batch vs one call per "
